@@ -45,7 +45,10 @@ def keyword_package(kws: list[str]) -> dict:
     f["kdigit.py"] = "def dg0(_1: int, _1x: int, __: int, a_1: int, _9_: int) -> int:\n    ...\n\n\nclass DHolder:\n    x_1_: int = 1\n    a__2: int = 2\n"
     for n in ("val", "fun", "attr", "sub", "out", "this", "val_"):       # module / package path segments
         f[f"{n}.py"] = "def inmod() -> int:\n    ...\n"
-    for n in ("schema", "internal", "segment_"):
+    # classes of other libraries whose top-level module / package is called like a keyword: one-segment paths in imports and placeholder stubs
+    f["kforeign.py"] = ("import enum\nfrom schema import Table\nfrom pipeline.val import Step\n\n\n"
+                        "def uses_foreign(m: enum.Enum, t: Table, s: Step) -> enum.IntEnum:\n    ...\n")
+    for n in ("internal", "segment_", "literal"):
         f[f"{n}/__init__.py"] = ""
         f[f"{n}/leaf.py"] = "def inpkg() -> int:\n    ...\n"
     return f
@@ -78,7 +81,18 @@ def doc_package(texts, style) -> dict:
             body += f"\n:param x: About x {s.splitlines()[0] if s.splitlines() else ''}\n"
         ind = "\n".join(("    " + ln) if ln else "" for ln in body.splitlines())
         L += [f"def dd{k}(x: int) -> int:", f'    r"""{ind.strip()}', '    """', "    ...", "", f"class DC{k}:", f'    r"""{ind.strip()}', '    """', "", f"    at: int = {k}", ""]
-    return {"__init__.py": "", "docmod.py": '"""Module doc */ with a closer."""\n\n' + "\n".join(L)}
+    files = {"__init__.py": "", "docmod.py": '"""Module doc */ with a closer."""\n\n' + "\n".join(L)}
+    # names and types that only the docstring supplies: an unknown bare type name, defaults written as text, result names with stars / keywords
+    if style == "NUMPYDOC":
+        files["docnames.py"] = ('def dn0(x, y="abc", z=1.0, w=None):\n    """Summary.\n\n    Parameters\n    ----------\n    x : ndarray\n        An array.\n'
+                                '    y : str, default=\'abc\'\n        Text.\n    z : float, default=np.nan\n        Float.\n    w : a.b.Thing or None\n        Dotted.\n\n'
+                                '    Returns\n    -------\n    *out : int\n        Star.\n    **kw : str\n        Stars.\n    val : int\n        Keyword.\n    """\n    return 1\n')
+    elif style == "GOOGLE":
+        files["docnames.py"] = ('def dn0(x, y="abc"):\n    """Summary.\n\n    Args:\n        x (ndarray): An array.\n        y (str, optional): Text. Defaults to \'abc\'.\n\n'
+                                '    Returns:\n        ndarray: The result.\n    """\n    return 1\n')
+    elif style == "REST":
+        files["docnames.py"] = ('def dn0(x, y="abc"):\n    """Summary.\n\n    :param ndarray x: An array.\n    :param y: Text.\n    :type y: some.Thing\n    :returns: The result.\n    :rtype: ndarray\n    """\n    return 1\n')
+    return files
 
 
 def main(v: Verdict) -> None:
@@ -92,7 +106,8 @@ def main(v: Verdict) -> None:
     docs = [t["text"] for t in texts if t["kind"] == "doc"]
     kws = keywords_from_spec()
     jobs, meta = [], []
-    kp = write_pkg(keyword_package(kws), "kwpk")
+    kp = write_pkg(keyword_package(kws), "kwpk", siblings={"schema": {"__init__.py": "class Table:\n    pass\n"},
+                                                          "pipeline": {"__init__.py": "", "val.py": "class Step:\n    pass\n"}})
     for nc in (False, True):
         jobs.append({"src": kp, "opts": Opts(docstyle="NUMPYDOC", nc=nc), "timeout": 600})
         meta.append(f"keywords-{'nc' if nc else 'py'}")
